@@ -5,7 +5,7 @@
  *   OD_HBC   1016h with OD_HBC_E entries (<= 3)
  *   OD_PARA  1010h / 1011h with OD_PARA_G groups (<= 3)
  *   OD_CSDO  1280h
- *   OD_RPDO  number of RPDO channels with parameter objects (0..2), 4 mapping slots each
+ *   OD_RPDO  number of RPDO channels with parameter objects (0..2), 4 mapping slots each (OD_MAPS 8: channel 0 has 8)
  *   OD_TPDO  number of TPDO channels (0..2), 4 mapping slots each
  *   OD_DUMMY dummy mapping objects 0002h..0007h offered as mappable
  *   OD_APP   application objects 2100h.. (always on unless OD_NOAPP)
@@ -99,7 +99,13 @@ static uint32_t v1600_00, v1600_01, v1600_02, v1600_03, v1600_10, v1600_11, v160
 static uint32_t * const v1400_1p[2] = { &v1400_1_0, &v1400_1_1 };
 static uint8_t  * const v1400_2p[2] = { &v1400_2_0, &v1400_2_1 };
 static uint8_t  * const v1600_0p[2] = { &v1600_0_0, &v1600_0_1 };
+#if OD_MAPS > 4
+static uint32_t v1600_04, v1600_05, v1600_06, v1600_07;      /* channel 0 only */
+static uint32_t * const v1600p[2][8] = { { &v1600_00, &v1600_01, &v1600_02, &v1600_03, &v1600_04, &v1600_05, &v1600_06, &v1600_07 },
+                                         { &v1600_10, &v1600_11, &v1600_12, &v1600_13, 0, 0, 0, 0 } };
+#else
 static uint32_t * const v1600p[2][4] = { { &v1600_00, &v1600_01, &v1600_02, &v1600_03 }, { &v1600_10, &v1600_11, &v1600_12, &v1600_13 } };
+#endif
 #define V1400_1(c) (*v1400_1p[(c)])
 #define V1400_2(c) (*v1400_2p[(c)])
 #define V1600_0(c) (*v1600_0p[(c)])
@@ -117,7 +123,13 @@ static uint8_t  * const v1800_2p[2] = { &v1800_2_0, &v1800_2_1 };
 static uint16_t * const v1800_3p[2] = { &v1800_3_0, &v1800_3_1 };
 static uint16_t * const v1800_5p[2] = { &v1800_5_0, &v1800_5_1 };
 static uint8_t  * const v1A00_0p[2] = { &v1A00_0_0, &v1A00_0_1 };
+#if OD_MAPS > 4
+static uint32_t v1A00_04, v1A00_05, v1A00_06, v1A00_07;      /* channel 0 only */
+static uint32_t * const v1A00p[2][8] = { { &v1A00_00, &v1A00_01, &v1A00_02, &v1A00_03, &v1A00_04, &v1A00_05, &v1A00_06, &v1A00_07 },
+                                         { &v1A00_10, &v1A00_11, &v1A00_12, &v1A00_13, 0, 0, 0, 0 } };
+#else
 static uint32_t * const v1A00p[2][4] = { { &v1A00_00, &v1A00_01, &v1A00_02, &v1A00_03 }, { &v1A00_10, &v1A00_11, &v1A00_12, &v1A00_13 } };
+#endif
 #define V1800_1(c) (*v1800_1p[(c)])
 #define V1800_2(c) (*v1800_2p[(c)])
 #define V1800_3(c) (*v1800_3p[(c)])
@@ -241,6 +253,12 @@ static CO_OBJ od[] = {
     { OD_ID(0x1600, 2, CO_OBJ_____RW), CO_TPDO_MAP,    (CO_DATA)&v1600_01 },
     { OD_ID(0x1600, 3, CO_OBJ_____RW), CO_TPDO_MAP,    (CO_DATA)&v1600_02 },
     { OD_ID(0x1600, 4, CO_OBJ_____RW), CO_TPDO_MAP,    (CO_DATA)&v1600_03 },
+#if OD_MAPS > 4
+    { OD_ID(0x1600, 5, CO_OBJ_____RW), CO_TPDO_MAP,    (CO_DATA)&v1600_04 },
+    { OD_ID(0x1600, 6, CO_OBJ_____RW), CO_TPDO_MAP,    (CO_DATA)&v1600_05 },
+    { OD_ID(0x1600, 7, CO_OBJ_____RW), CO_TPDO_MAP,    (CO_DATA)&v1600_06 },
+    { OD_ID(0x1600, 8, CO_OBJ_____RW), CO_TPDO_MAP,    (CO_DATA)&v1600_07 },
+#endif
 #endif
 #if OD_RPDO > 1
     { OD_ID(0x1601, 0, CO_OBJ_____RW), CO_TPDO_NUM,    (CO_DATA)&v1600_0_1 },
@@ -269,6 +287,12 @@ static CO_OBJ od[] = {
     { OD_ID(0x1A00, 2, CO_OBJ_____RW), CO_TPDO_MAP,    (CO_DATA)&v1A00_01 },
     { OD_ID(0x1A00, 3, CO_OBJ_____RW), CO_TPDO_MAP,    (CO_DATA)&v1A00_02 },
     { OD_ID(0x1A00, 4, CO_OBJ_____RW), CO_TPDO_MAP,    (CO_DATA)&v1A00_03 },
+#if OD_MAPS > 4
+    { OD_ID(0x1A00, 5, CO_OBJ_____RW), CO_TPDO_MAP,    (CO_DATA)&v1A00_04 },
+    { OD_ID(0x1A00, 6, CO_OBJ_____RW), CO_TPDO_MAP,    (CO_DATA)&v1A00_05 },
+    { OD_ID(0x1A00, 7, CO_OBJ_____RW), CO_TPDO_MAP,    (CO_DATA)&v1A00_06 },
+    { OD_ID(0x1A00, 8, CO_OBJ_____RW), CO_TPDO_MAP,    (CO_DATA)&v1A00_07 },
+#endif
 #endif
 #if OD_TPDO > 1
     { OD_ID(0x1A01, 0, CO_OBJ_____RW), CO_TPDO_NUM,    (CO_DATA)&v1A00_0_1 },
